@@ -581,6 +581,37 @@ func ruleNameConflictScenarios(c *Ctx, rule string, inferFn *ssa.Function, enter
 	if depthIdx < 0 || tagIdx < 0 || st.NumFields() != 2 {
 		return
 	}
+	// whether a name "comes from a tag" is read off the tag, not off a comparison with the Go name of the field: a tag
+	// that spells the Go name (`X int `json:"X"``) names the field as much as any other
+	nTag := 0
+	for _, fi := range c.familyInstrs(inferFn) {
+		stt, ok := fi.I.(*ssa.Store)
+		if !ok {
+			continue
+		}
+		fa, ok := stt.Addr.(*ssa.FieldAddr)
+		if !ok || fa.Field != tagIdx {
+			continue
+		}
+		if pt, isPtr := fa.X.Type().Underlying().(*types.Pointer); !isPtr || !types.Identical(pt.Elem().Underlying(), st) {
+			continue
+		}
+		nTag++
+		usesGoName := ""
+		for _, v := range backSlice(stt.Val, 30) {
+			switch x := v.(type) {
+			case *ssa.Field:
+				if isNamed(x.X.Type(), "reflect", "StructField") && x.Field == 0 {
+					usesGoName = c.pos(stt)
+				}
+			case *ssa.UnOp:
+				if fa2, ok := x.X.(*ssa.FieldAddr); ok && isNamed(derefType(fa2.X.Type()), "reflect", "StructField") && fa2.Field == 0 {
+					usesGoName = c.pos(stt)
+				}
+			}
+		}
+		c.R.Check(usesGoName == "", rule, fmt.Sprintf("forType:taggedness#%d:from-the-tag", nTag), c.pos(stt), "whether a field's name comes from a tag is read off the tag", "whether a field's JSON name \"comes from a tag\" is decided by comparing it with the Go name of the field: a tag that repeats the Go name counts as no tag, so of two fields at one depth that are both tag-named alike one wins although encoding/json drops both")
+	}
 	// where to start in the inference function: the block of the lookup, or of the call that leads to it
 	var at ssa.Instruction = lk
 	if len(lkFI.Path) > 0 {
